@@ -177,7 +177,7 @@ def correspond(pid, spec, tier, seed, release=False):
     """run harness + driver; returns dict with meta, diffs, crash info"""
     rundir = os.path.join(RUNS, f"{pid}-{tier}" + ("-release" if release else ""))
     os.makedirs(rundir, exist_ok=True)
-    for f in ("ops.txt", "impl.txt", "model.txt", "meta.json"):
+    for f in ("ops.txt", "impl.txt", "model.txt", "meta.json", "oracle.txt"):
         try: os.remove(os.path.join(rundir, f))
         except FileNotFoundError: pass
     res = {"rundir": rundir, "crashed": None, "diffs": [], "meta": {}, "model_faults": 0}
@@ -185,7 +185,7 @@ def correspond(pid, spec, tier, seed, release=False):
     t0 = time.time()
     env = {"NO_COLOR": "1", "RAYON_NUM_THREADS": os.environ.get("RAYON_NUM_THREADS", "")}
     env = {k: v for k, v in env.items() if v}
-    rc, out = sh([exe, spec["harness"], tier, str(seed), rundir], timeout=spec.get("timeout", 3000), env=env)
+    rc, out = sh([exe, spec["harness"], tier, str(seed), rundir], timeout=spec.get("timeout", 1200), env=env)
     res["harness_s"] = round(time.time() - t0, 2)
     ops = open(os.path.join(rundir, "ops.txt")).read().splitlines() if os.path.exists(os.path.join(rundir, "ops.txt")) else []
     if rc != 0 or "HARNESS-DONE" not in out:
@@ -194,6 +194,9 @@ def correspond(pid, spec, tier, seed, release=False):
         cases = split_cases(ops)
         last = cases[-1] if cases else ("# case ?", [])
         res["crashed"] = {"rc": rc, "tail": out[-1500:], "case": last[0], "ops": last[1][-40:]}
+        opath = os.path.join(rundir, "oracle.txt")
+        if os.path.exists(opath):
+            res["meta"] = {"oracle_failures": open(opath).read().splitlines()[:50]}
         return res
     res["meta"] = json.load(open(os.path.join(rundir, "meta.json")))
     t0 = time.time()
